@@ -337,9 +337,9 @@ pub fn run(ctx: &Ctx) {
     ctx.rule("shapes-and-orders: exhaustive grid model length 0..12 x Y rows 0..12 x columns 0..4 (1 for the single right-hand-side constructors) x weights {absent, len=rows, len=model length, other 0..13} x the four constructors (new, mrhs, new_parallel, mrhs_parallel), each with 3 (quick) / 8 (thorough) call orders (permutations of observations/weights/epsilon and repetitions whose earlier values must be overwritten), occasionally without any observations call; verdict Ok <=> the specification's set of violated requirements is empty, Err(kind) => kind in the set; accepted problems: params() == model's initial parameters (bitwise), residuals/coefficients present, identical to an explicit set_params(initial), identical across call orders (bitwise, incl. weighted data). threshold: one-column model with singular value exactly s / one ulp above: epsilon(±s), no call (machine epsilon), repeated calls (last wins). non-trivial = accepted problems and rejections with exactly one violated requirement");
     *ctx.exhaustive.lock().unwrap() = Some(true);
     let t = ctx.tier;
-    let orders = t.pick(3, 8);
+    let orders = t.pick(3, 16);
     let grid = 13 * 13 * 5 * 4 * 4;
     ctx.run_cases("shapes-and-orders", grid, t.pick(60.0, 600.0), |r, c, o| if c % 2 == 0 { shapes_case::<f64>(r, c, o, orders) } else { shapes_case::<f32>(r, c, o, orders) });
-    ctx.run_cases("threshold", t.pick(3000, 10000), t.pick(10.0, 60.0), |r, c, o| if c % 2 == 0 { threshold_case::<f64>(r, c, o) } else { threshold_case::<f32>(r, c, o) });
+    ctx.run_cases("threshold", t.pick(3000, 60000), t.pick(10.0, 60.0), |r, c, o| if c % 2 == 0 { threshold_case::<f64>(r, c, o) } else { threshold_case::<f32>(r, c, o) });
     ctx.extra("shape_grid", json!({"model_length": "0..12", "rows": "0..12", "cols": "0..4", "weights": 4, "constructors": 4, "combinations": grid}));
 }
